@@ -37,6 +37,7 @@ CONSTANTS MaxEntries,   \* bound on entries built by the constructor actions
           Pts,          \* numbers of extra instructions (entry points) an entry may get
           Layouts,      \* path layouts (indices into LayoutTable) the constructor may use
           AnchorKinds,  \* AddressAnchor kinds the constructor may use
+          Ancs,         \* explicit-anchor choices (0 none, 1 the containing entry's address) a #R reference may get
           Deviation     \* "none" | "single-remote-operand" (a former behaviour of skoolkit, see RefLink)
 
 VARIABLES site, files, written, links, todo
@@ -354,8 +355,8 @@ WriteNext ==
   /\ UNCHANGED site
 
 Next == \/ \E t \in Types, c \in 1..2, pts \in Pts : AddEntry(t, c, pts)
-        \/ \E i, j \in 1..MaxEntries, k \in 1..3, op \in 0..1, anc \in 0..1 : AddRef(i, j, k, op, anc)
-        \/ \E j \in 1..MaxEntries, k \in 1..3, anc \in 0..1 : AddPageRef(j, k, anc)
+        \/ \E i, j \in 1..MaxEntries, k \in 1..3, op \in 0..1, anc \in Ancs : AddRef(i, j, k, op, anc)
+        \/ \E j \in 1..MaxEntries, k \in 1..3, anc \in Ancs : AddPageRef(j, k, anc)
         \/ Finish
         \/ WriteNext
 
